@@ -486,7 +486,58 @@ pub fn run(e: &Engine) {
         |c| c.to_json(),
         check,
     );
-    for cls in ["has_rejected_call", "uses_empty_key", "bulk_with_bad_item", "from_iter_with_bad_item"] {
+    // long keys (beyond 255 / 65 535 bytes, rejected keys much longer or shorter than the last
+    // accepted one, shared prefixes far beyond 16 bytes) and long histories (> 2^16 accepted keys)
+    e.run_prop(
+        "long-keys-and-long-histories",
+        e.tier.pick(1_500, 40_000),
+        || {
+            let lens = prop_oneof![Just(0usize), Just(1), Just(17), Just(255), Just(256), Just(257), Just(1000), Just(65_535), Just(65_536), Just(70_000), 2usize..600];
+            (proptest::collection::vec((lens, 0u8..3, gen::value_strategy()), 1..10), 0usize..4, 0u8..3, prop::bool::weighted(0.05))
+                .prop_map(|(items, ki, bm, long_history)| {
+                    let mut ops: Pairs = vec![];
+                    if long_history {
+                        // 70 000 accepted keys with a rejected call now and then
+                        for i in 0..70_000u32 {
+                            ops.push((format!("{:07}", i).into_bytes(), i as u64));
+                            if i % 9_973 == 5 {
+                                ops.push((format!("{:07}", i / 2).into_bytes(), 1));
+                                ops.push((format!("{:07}", i).into_bytes(), 2));
+                            }
+                        }
+                    }
+                    for (len, tail, v) in items {
+                        // keys share the prefix "pppp…" and differ in length / last byte
+                        let mut k = vec![b'p'; len];
+                        if len > 0 {
+                            k[len - 1] = b'p' + tail;
+                        }
+                        if long_history {
+                            k.insert(0, b'z');
+                        }
+                        ops.push((k, v));
+                    }
+                    let n = ops.len();
+                    let bulk = match bm {
+                        0 => Bulk::None,
+                        1 => Bulk::ExtendIter(n.saturating_sub(5), 5.min(n)),
+                        _ => Bulk::ExtendStream(n.saturating_sub(4), 4.min(n)),
+                    };
+                    Case { kind: BKind::ALL[ki], ops, bulk }
+                })
+        },
+        |c| if c.ops.len() > 1000 { json!({"builder": c.kind.name(), "n_ops": c.ops.len(), "note": "long history, regenerate from the seed"}) } else { c.to_json() },
+        |c, rec| {
+            if c.ops.iter().any(|o| o.0.len() > 255) {
+                rec.class("key_longer_than_255");
+            }
+            if c.ops.len() > 65_536 {
+                rec.class("more_than_2^16_calls");
+            }
+            check(c, rec)
+        },
+    );
+    for cls in ["has_rejected_call", "uses_empty_key", "bulk_with_bad_item", "from_iter_with_bad_item", "key_longer_than_255", "more_than_2^16_calls"] {
         e.require_class(cls, 1);
     }
 }
